@@ -23,6 +23,7 @@ func init() {
 		Controls: []Control{
 			{Name: "deadline-only-moves-forward", File: "protocols/isis/server/neighbor.go", Old: "\tn.timeout = to\n}", New: "\tif !to.After(n.timeout) {\n\t\treturn\n\t}\n\tn.timeout = to\n}", Expect: "deadline-follows-the-last-hello"},
 			{Name: "down-neighbor-replaced-in-the-map", File: "protocols/isis/server/neighbor_manager.go", Old: "\tif _, found := nm.neighbors[src]; !found {\n\t\tn := nm.neighborFromP2PHello(hello, src)\n", New: "\tif old, found := nm.neighbors[src]; !found || old.getState() == packet.P2PAdjStateDown {\n\t\tn := nm.neighborFromP2PHello(hello, src)\n", Expect: "neighbor-entry-created-only-when-absent"},
+			{Name: "refactor-lookup-before-the-test", Silent: true, File: "protocols/isis/server/neighbor_manager.go", Old: "\tif _, found := nm.neighbors[src]; !found {\n\t\tn := nm.neighborFromP2PHello(hello, src)\n", New: "\t_, found := nm.neighbors[src]\n\tif !found {\n\t\tn := nm.neighborFromP2PHello(hello, src)\n"},
 			{Name: "checker-ticker-handed-in-from-the-manager", File: "protocols/isis/server/neighbor.go", Old: "\tn.adjCheckTicker = clock.Ticker(time.Second)\n\tdefer n.adjCheckTicker.Stop()\n", New: "\tdefer n.adjCheckTicker.Stop()\n\tif n.adjCheckTicker == nil {\n\t\tn.adjCheckTicker = clock.Ticker(time.Second)\n\t}\n", Expect: "checker-stops-its-own-ticker"},
 			{Name: "down-only-tears-down-up-adjacencies", File: "protocols/isis/server/neighbor.go", Old: "func (n *neighbor) down() {\n", New: "func (n *neighbor) down() {\n\tif n.getState() != packet.P2PAdjStateUp {\n\t\treturn\n\t}\n", Expect: "timeout-covers-every-live-state"},
 			{Name: "refactor-down-skips-when-already-down", Silent: true, File: "protocols/isis/server/neighbor.go", Old: "func (n *neighbor) down() {\n", New: "func (n *neighbor) down() {\n\tif n.getState() == packet.P2PAdjStateDown {\n\t\treturn\n\t}\n"},
